@@ -36,6 +36,9 @@ func (op regOp) real() ([]byte, bool) {
 	return []byte(op.Src), op.Keep
 }
 
+// sources the parser rejects (missing, surplus and crossed closers, unterminated tags)
+var c04Malformed = []string{"{% if a == 1 %}x", "x{% endif %}", "{% for i := 0; i < 2; i++ %}y", "{% switch a %}{% case 1 %}z", "{% if a == 1 %}{% for i := 0; i < 2; i++ %}w{% endif %}{% endfor %}", "{% if a == 1 %}v{% endfor %}", "u{% if", "{% for _, v := range a %}{% if v == 1 %}q{% endfor %}"}
+
 // multi-line sources: with keepFmt they render verbatim, without it line breaks and indentation go
 var c04Multi = []string{"source-E\n\tmore", "source-F\n  tail\nend"}
 
@@ -44,6 +47,8 @@ func (op regOp) String() string {
 		op.Src = fmt.Sprintf("%s (keepFmt=%v)", op.Text, op.Keep)
 	}
 	switch op.Kind {
+	case "parsebad":
+		return fmt.Sprintf("Parse(%q) [malformed]", op.Src)
 	case "parse":
 		return fmt.Sprintf("Parse(%q)", op.Src)
 	case "register":
@@ -82,6 +87,11 @@ func genHistory(r *RNG, maxLen int) []regOp {
 			if !keep {
 				src = string(cutFmtDoc([]byte(text)))
 			}
+		}
+		if r.Chance(8) {
+			// a source the parser rejects: it must leave nothing behind for later calls
+			ops = append(ops, regOp{Kind: "parsebad", ID: -1, Src: c04Malformed[r.Intn(len(c04Malformed))]})
+			continue
 		}
 		switch r.Intn(11) {
 		case 0:
@@ -123,6 +133,11 @@ func runHistory(ops []regOp) {
 		o := guarded(5*time.Second, func() ([]byte, error) {
 			ctx := dyntpl.NewCtx()
 			switch op.Kind {
+			case "parsebad":
+				if _, err := dyntpl.Parse([]byte(op.Src), false); err != nil {
+					return []byte("\x00rejected"), nil
+				}
+				return []byte("\x00accepted"), nil
 			case "parse":
 				t, err := dyntpl.Parse(op.real())
 				if err != nil {
@@ -174,6 +189,10 @@ func runHistory(ops []regOp) {
 			op.Obs = "err:" + o.Err
 		case string(o.Out) == "\x00unit":
 			op.Obs = "unit"
+		case string(o.Out) == "\x00rejected":
+			op.Obs = "rejected"
+		case string(o.Out) == "\x00accepted":
+			op.Obs = "accepted-malformed"
 		default:
 			op.Obs = "src:" + string(o.Out)
 		}
@@ -188,6 +207,8 @@ func specHistory(ops []regOp) []string {
 	var out []string
 	for _, op := range ops {
 		switch op.Kind {
+		case "parsebad":
+			out = append(out, "rejected")
 		case "parse":
 			out = append(out, "src:"+op.Src)
 		case "register":
